@@ -358,7 +358,22 @@ def compare(case, obs, model_out):
     if obs["import_error"]:
         diffs.append(("import", ALLP, obs["import_error"]))
     if mres != ires:
-        diffs.append(("results", ["C06", "C07", "C02", "C14", "C17"], f"model {sx(mres)} impl {sx(ires)}"))
+        # attribute the disagreement: a UsageError concerns copying (C17), a TypeError the mixed-operation
+        # rule (C06), a boolean the answer handed to the test (C06 without flags, C02/C07 with flags)
+        props = set()
+        if len(mres) != len(ires):
+            props = {"C06", "C07", "C02", "C14", "C17"}
+        for a, b in zip(mres, ires):
+            if a != b:           # only the FIRST difference is attributed; later ones may be its consequence
+                if props:
+                    break
+                if "UsageError" in (a, b):
+                    props |= {"C17", "C14"}
+                elif "TypeError" in (a, b):
+                    props |= {"C06"}
+                else:
+                    props |= {"C06", "C02", "C07"} if not case["flags"] else {"C02", "C07"}
+        diffs.append(("results", sorted(props), f"model {sx(mres)} impl {sx(ires)}"))
     # counters after every test
     for t, o in enumerate(outs):
         mc = [int(o[2][1]), int(o[2][2])]
